@@ -14,7 +14,7 @@ def lexer_yield_rule(repo, res):
     """L-YIELD: every ``yield`` of the lexer generator is lexically inside a
     ``try`` with a handler that catches ValueError and raises LexerError --
     that is what turns ``tokens.throw(ValueError, ...)`` into a LexerError."""
-    fn = repo.function("lexer", "lexer")
+    fn = repo.full_function("lexer", "lexer")
     yields = [n for n in ast.walk(fn) if isinstance(n, (ast.Yield, ast.YieldFrom))]
     res.floor("lexer yields", len(yields), 1)
     for y in yields:
